@@ -931,38 +931,53 @@ func veUseView(v *View, queries []string) (*veViewAnswer, error) {
 	return ans, nil
 }
 
-// veBlockedGoroutines lists the goroutines that are inside the service's job bodies or the converter package
-// (what a job that never finishes is waiting for): header and pkappa2 frames only; converter processes that
-// merely wait for input are counted.
+// veBlockedGoroutines lists the goroutines that are inside pkappa2 code outside the harness (what a job that never
+// finishes, or a call that never returns, is waiting for): header and pkappa2 frames only, the whole stack for
+// goroutines inside a system call; idle service loops and converter processes that wait for input are counted.
 func veBlockedGoroutines() string {
-	buf := make([]byte, 16<<20)
+	buf := make([]byte, 32<<20)
 	buf = buf[:runtime.Stack(buf, true)]
 	var out []string
-	idle := 0
+	idleProc, idleLoop := 0, 0
 	for _, g := range strings.Split(string(buf), "\n\n") {
-		if !strings.Contains(g, "Job") && !strings.Contains(g, "/converters.") {
-			continue
-		}
 		if strings.Contains(g, "veBlockedGoroutines") {
 			continue
 		}
 		lines := strings.Split(g, "\n")
 		keep := []string{lines[0]}
-		frames := 0
-		full := strings.Contains(lines[0], "syscall") // where exactly a job sits in the kernel matters
+		full := strings.Contains(lines[0], "syscall")
+		frames, own := 0, 0
 		for i := 1; i+1 < len(lines); i += 2 {
-			if full || (strings.Contains(lines[i], "spq/pkappa2") && !strings.HasPrefix(lines[i], "created by")) {
-				keep = append(keep, lines[i], lines[i+1])
+			if strings.HasPrefix(lines[i], "created by") {
+				continue
+			}
+			if strings.Contains(lines[i], "spq/pkappa2") {
 				frames++
+				if !strings.Contains(lines[i+1], "zz_verif") && !strings.Contains(lines[i], "internal/verif/") {
+					own++
+				}
+				keep = append(keep, lines[i], lines[i+1])
+			} else if full {
+				keep = append(keep, lines[i], lines[i+1])
 			}
 		}
-		if frames <= 2 && strings.Contains(g, "converters.(*Process).run(") && strings.Contains(g, "process.go:168") {
-			idle++
+		if own == 0 {
+			continue
+		}
+		if frames == 1 && strings.Contains(g, "converters.(*Process).run(") && strings.Contains(g, "process.go:168") {
+			idleProc++
+			continue
+		}
+		if frames == 1 && strings.Contains(g, "manager.New.func1") && strings.Contains(lines[0], "chan receive") {
+			idleLoop++
+			continue
+		}
+		if frames == 1 && (strings.Contains(g, "tagUpdateEventWorker") || strings.Contains(g, "pcapOverIPPacketHandler")) {
 			continue
 		}
 		if len(out) < 40 {
 			out = append(out, strings.Join(keep, "\n"))
 		}
 	}
-	return fmt.Sprintf("%s\n(%d converter processes waiting for input)", strings.Join(out, "\n--\n"), idle)
+	return fmt.Sprintf("%s\n(%d converter processes waiting for input, %d idle service loops)", strings.Join(out, "\n--\n"), idleProc, idleLoop)
 }
